@@ -138,6 +138,37 @@ def step (cfg : Cfg) (t : KS) : ROp → KS × ROut
   | .ping => (t, .pong)
   | .adv dt => (t.adv dt, .none_)
 
+/-- what a command answers when the server cannot be reached and errors are suppressed:
+reads give the default (an empty result; `get_expire` gives 0), writes report failure (`False` / `None`);
+only `ping` raises -/
+def failureValue : ROp → ROut
+  | .set _ _ _ _ => .bool false
+  | .setMany _ _ => .none_
+  | .get _ => .val none
+  | .getMany ks => .vals (ks.map fun _ => none)
+  | .exists_ _ => .bool false
+  | .incr _ _ _ => .none_
+  | .delete _ => .bool false
+  | .deleteMany _ => .none_
+  | .expire _ _ => .none_
+  | .getExpire _ => .int 0
+  | .clear => .none_
+  | .keysCount => .none_
+  | .scan _ _ => .keys []
+  | .getMatch _ _ => .pairs []
+  | .deleteMatch _ => .none_
+  | .setLock _ _ _ => .bool false
+  | .unlock _ _ => .none_
+  | .isLocked _ => .bool false
+  | .setAdd _ _ _ => .none_
+  | .setRemove _ _ => .none_
+  | .setPop _ _ => .keys []
+  | .getBits _ _ _ => .ints []
+  | .incrBits _ _ _ _ => .ints []
+  | .sliceIncr _ _ _ _ _ => .none_
+  | .ping => .raise
+  | .adv _ => .none_
+
 def run (cfg : Cfg) (t : KS) : List ROp → KS × List ROut
   | [] => (t, [])
   | op :: ops =>
